@@ -98,6 +98,10 @@ def build_module(spec):
         return PVLModule([("a", Quantity(5, "m")), ("b", Quantity("x", "m"))])
     if name == "unserializable":
         return PVLModule([("a", object())])
+    if name == "nonascii":
+        return PVLModule([("note", "Caf\u00e9 \u20ac"), ("b", 1)])
+    if name == "control":
+        return PVLModule([("note", "bell\x07 del\x7f"), ("b", 1)])
     if name == "nested":
         return PVLModule([("o", PVLObject([("g", PVLGroup([("k", [1, 2])])),
                                             ("t", "two words")]))])
@@ -105,7 +109,8 @@ def build_module(spec):
 
 
 SPECIALS = ["longname", "bothquotes", "set-of-reals", "naive-time",
-            "group-only", "quantity", "unserializable", "nested"]
+            "group-only", "quantity", "unserializable", "nested",
+            "nonascii", "nonascii", "control"]
 
 DECODE_POOL = ["12", "-3.5", "16#FF#", "2#101#", "'q s'", '"x"', "abc",
                "NULL", "true", "2001-01-01", "12:30:15Z", "2001-001T01:02:03",
@@ -210,7 +215,9 @@ class C16(Property):
             "configurations, one of the four encoders, a decoder, or one of "
             "the shared instances of pvl_validate.dialects / "
             "pvl_translate.formats after a module reload) and a seeded "
-            "history of 2-12 calls on it: well-formed labels, value-loss "
+            "history of 2-12 calls (in 4% of the runs 120-260 small calls, "
+            "half of them failing inside an open collection up to 60 levels "
+            "deep) on it: well-formed labels, value-loss "
             "labels with different line numbers, token-damaged labels "
             "failing early / mid-block / at end of text, tests/data labels; "
             "encodable and unencodable modules; decodable and undecodable "
@@ -238,7 +245,8 @@ class C16(Property):
                        "probe.call-after-aborted-call",
                        "probe.call-after-empty-value-load",
                        "probe.shared-instance", "probe.cold-compared",
-                       "probe.encoder-history", "probe.decoder-history"]
+                       "probe.encoder-history", "probe.decoder-history",
+                       "probe.long-history"]
 
     def kinds(self):
         ks = ["parser:" + c for c in dialects.CONFIGS] * 3
@@ -254,12 +262,31 @@ class C16(Property):
     def gen_calls(self, rng, kind, out):
         r = role(kind)
         n = rng.randint(2, 12)
+        long_history = rng.random() < 0.04
+        if long_history:
+            # many small calls on one instance: state that only creeps
+            # (counters, caches, lists that grow) needs a long history
+            n = rng.randint(120, 260)
+            out.inc("probe.long-history")
         calls = []
         cfg = kind.split(":")[1] if not kind.startswith("shared") else \
             {"Omni": "default"}.get(kind.split(":")[2], kind.split(":")[2])
         if cfg not in dialects.CONFIGS:
             cfg = "default"
         for _ in range(n):
+            if r == "parser" and long_history:
+                x = rng.random()
+                if x < 0.5:     # fails inside an open collection
+                    depth = rng.choice([1, 1, 2, 3, 8, 30, 60])
+                    text = "A = " + "(" * depth + "1, 2"
+                elif x < 0.7:
+                    text = "A = ((1, 2), {3}) B = \nC = 4"
+                elif x < 0.85:
+                    text = "GROUP = g X = (1, \nEND_GROUP"
+                else:
+                    text = "A = " + "(" * 40 + "1" + ")" * 40
+                calls.append({"text": text})
+                continue
             if r == "parser":
                 x = rng.random()
                 stmts, toks, text, style = gen.render_doc(
